@@ -77,3 +77,43 @@ Proof.
              (digit_not_ws _ (Hdig _ Hf)) (digit_not_ws _ (Hdig _ Hl)) Hw).
   apply parse_u32_dec. exact Hn.
 Qed.
+
+(* ... and so is the value followed by blanks AND comments: the value's span runs up to the delimiter,
+   the text from the first comment opener on is dropped before it is trimmed and parsed *)
+Lemma cut_comment_no_slash t : forallb (fun c => negb (c =? 47)) t = true -> cut_comment t = t.
+Proof.
+  induction t as [|c t IH]; cbn [forallb cut_comment]; [reflexivity|]. intros H. apply andb_true_iff in H.
+  destruct H as [Hc Ht]. destruct (c =? 47); [discriminate|]. cbn [andb]. rewrite IH by exact Ht. reflexivity.
+Qed.
+
+Lemma cut_comment_app a g :
+  forallb (fun c => negb (c =? 47)) a = true ->
+  (g = [] \/ exists x, g = 47 :: 42 :: x \/ g = 47 :: 47 :: x) ->
+  cut_comment (a ++ g) = a.
+Proof.
+  intros Ha Hg. induction a as [|c a IH]; cbn [app forallb cut_comment] in *.
+  - destruct Hg as [->|(x & [->| ->])]; reflexivity.
+  - apply andb_true_iff in Ha. destruct Ha as [Hc Ha]. destruct (c =? 47); [discriminate|]. cbn [andb].
+    rewrite IH by exact Ha. reflexivity.
+Qed.
+
+Lemma ws_no_slash w : forallb is_ws_tab w = true -> forallb (fun c => negb (c =? 47)) w = true.
+Proof.
+  induction w as [|c w IH]; cbn [forallb]; [reflexivity|]. intros H. apply andb_true_iff in H. destruct H as [Hc Hw].
+  rewrite IH by exact Hw. destruct (N.eqb_spec c 47) as [->|]; [vm_compute in Hc; discriminate|reflexivity].
+Qed.
+
+Lemma dec_no_slash n : forallb (fun c => negb (c =? 47)) (dec n) = true.
+Proof.
+  destruct (dec_spec n) as (_ & Hdig & _). rewrite forallb_forall in *. intros c Hc. specialize (Hdig c Hc).
+  destruct (N.eqb_spec c 47) as [->|]; [vm_compute in Hdig; discriminate|reflexivity].
+Qed.
+
+Theorem ref_value_with_layout (n : N) (w g : list N) :
+  n <= u32_max -> forallb is_ws_tab w = true ->
+  (g = [] \/ exists x, g = 47 :: 42 :: x \/ g = 47 :: 47 :: x) ->
+  ref_value the_params (dec n ++ w ++ g) = Some n.
+Proof.
+  intros Hn Hw Hg. unfold ref_value. rewrite app_assoc. rewrite cut_comment_app; [|rewrite forallb_app, dec_no_slash, (ws_no_slash w Hw); reflexivity|exact Hg].
+  exact (structured_value_roundtrip n w Hn Hw).
+Qed.
